@@ -412,6 +412,8 @@ def generate(repo):
         ('fj_parser.get_char_value_and_length',
          normalised_source(one_def(pt.body, 'get_char_value_and_length', 'fj_parser.py'))),
         ('fj_parser.FJLexer.NUMBER', normalised_source(one_def(lexer_cls.body, 'NUMBER', 'fj_parser.py'))),
+        ('fj_parser.FJLexer._decimal_value',
+         normalised_source(one_def(lexer_cls.body, '_decimal_value', 'fj_parser.py'))),
         ('fj_parser.FJLexer.STRING', normalised_source(one_def(lexer_cls.body, 'STRING', 'fj_parser.py'))),
         ('fj_parser.FJParser.statement : ID "=" expr',
          normalised_source(const_statement(parser_cls))),
